@@ -175,16 +175,21 @@ class FreshRandom(RandomSource):
     whose Box-Muller body needs math.log/cos on floats) are supplied; choice, choice_weighted,
     shuffle, pop_random, random_bool are the repository's own code running on top."""
 
-    def __init__(self, ctx: Ctx, name: str = "r", concrete: bool = False):
+    def __init__(self, ctx: Ctx, name: str = "r", concrete: bool = False, coarse: bool = False):
         self.ctx = ctx
         self.name = name
         self.concrete = concrete  # realise every draw at once (code that crosses into C, e.g. numpy)
+        self.coarse = coarse  # wide ranges (> 64 values): realise from {lo, lo+1, hi} only (stated bound)
         self.n_int = 0
         self.n_float = 0
         self.log: list[tuple] = []
 
     def randint(self, min, max):
         self.n_int += 1
+        if self.coarse and not hasattr(min, "var") and not hasattr(max, "var") and max - min > 64:
+            v = min + 1 if getattr(self, "coarse_single", False) else self.ctx.pick([min, min + 1, max], self.name + ".randint(coarse)")
+            self.log.append((min, max, v))
+            return v
         v = (self.ctx.cint if self.concrete else self.ctx.int)(min, max, self.name + ".randint")
         self.log.append((min, max, v))
         return v
